@@ -100,9 +100,9 @@ static Outcome one_run(const Scen& s, uint64_t seed, long k, int kind, std::stri
       if (it->second.serial > mk && !std::binary_search(pool.begin(), pool.end(), it->first)) blocks.push_back(it->first);
     for (size_t i = 0; i < blocks.size(); ++i) {
       fi::Info inf = fi::live()[blocks[i]];
-      ss.insert(std::string(inf.origin == 0 ? "new:" : "gmp:") + fi::site_of(inf.bt, inf.nbt));
+      ss.insert(std::string(inf.origin == 0 ? "new:" : "gmp:") + fi::site_of(inf.bt, inf.nbt, 9));
     }
-    std::string out = "thrower=" + fi::site_of(fi::fired_bt, fi::fired_nbt, 6) + " leaked=";
+    std::string out = "thrower=" + fi::site_of(fi::fired_bt, fi::fired_nbt, 9) + " leaked=";
     bool first = true;
     for (std::set<std::string>::iterator i = ss.begin(); i != ss.end(); ++i) { if (!first) out += "|"; out += *i; first = false; }
     *sites = out;
@@ -127,6 +127,8 @@ int main(int argc, char** argv) {
   long kcap = pplv::arg_long(argc, argv, "--kcap", 1000000000);     // beyond kcap events: every `stride`-th k only
   long stride = pplv::arg_long(argc, argv, "--stride-after", 1);
   long onek = pplv::arg_long(argc, argv, "--k", -2);
+  long sample = pplv::arg_long(argc, argv, "--sample", 0);   // at most about this many k per scenario (evenly spaced, offset by the seed)
+  long sample_from = pplv::arg_long(argc, argv, "--sample-from", 0);  // scenarios with index >= this are sampled
   long step = pplv::arg_long(argc, argv, "--step", 1), phase = pplv::arg_long(argc, argv, "--phase", 0);  // scenario si is run iff si % step == phase
   const char* only = pplv::arg_str(argc, argv, "--only", "");
   fi::persist = pplv::arg_long(argc, argv, "--persist", 0) != 0;
@@ -169,6 +171,7 @@ int main(int argc, char** argv) {
         for (long k = k0; k < n; ++k) {
           if (onek > -2 && k != onek) continue;
           if (k >= kcap && ((k - kcap) % stride) != 0) continue;
+          if (sample > 0 && si >= sample_from && n > sample) { long st = (n + sample - 1) / sample; if ((k % st) != (long)(seed % (uint64_t)st)) continue; }
           P->k = k;
           Outcome o = one_run(s, sseed, k, kind); ++runs;
           if (o.r.fired) ++fired_n[o.r.fired_origin < 0 ? 0 : o.r.fired_origin]; else ++notfired;
